@@ -10,7 +10,91 @@ const OPTS2 = JSON.stringify({ transformOn: true, optimize: true, enableObjectSl
 
 const OPTS3 = JSON.stringify({ transformOn: true, optimize: false, pragma: 'hh' });
 
+// ---- RT: component definitions under resolveType next to unrelated imports, types and other components
+const R = require('../lib/rspace');
+const { canonValue, Names } = require('../lib/canon');
+const RT_OPTS = JSON.stringify({ resolveType: true });
+const RT_PRE = "import { defineComponent, SetupContext } from 'vue';\n";
+const RT = {
+  // observed items: what Vue's defineComponent receives as options
+  cA: { comp: true, tpl: (i) => `const CA${i} = defineComponent((props: { a: string; b?: number }) => () => null);\n__out.k${i} = CA${i};` },
+  cI: { comp: true, tpl: (i) => `interface PI${i} { m: boolean }\nconst CI${i} = defineComponent((props: PI${i}, ctx: SetupContext<{ (e: 'ev'): void }>) => () => null);\n__out.k${i} = CI${i};` },
+  cD: { comp: true, tpl: (i) => `const CD${i} = defineComponent((props: { d?: string } = { d: 'z' }) => () => null, { inheritAttrs: false });\n__out.k${i} = CD${i};` },
+  cJ: { comp: true, tpl: (i) => `export const CJ${i} = defineComponent((props: { t: string }) => () => <div>{props.t}</div>);\n__out.k${i} = CJ${i};` },
+  cX: { comp: true, tpl: (i) => `export default defineComponent((props: { x: [string, number] }, { emit }: SetupContext<{ done: [] }>) => () => null);\n__out.k${i} = 0;`, dflt: true },
+  // unrelated statements
+  iRef: { once: true, tpl: (i) => `import { ref } from 'vue';` },
+  iRefUsed: { tpl: (i) => `import { ref as rr${i}, computed as cc${i} } from 'vue';\nconst cnt${i} = typeof rr${i};` },
+  iFragAlias: { tpl: (i) => `import { Fragment as FF${i} } from 'vue';` },
+  iSide: { tpl: (i) => `import 'vue';` },
+  iNs: { tpl: (i) => `import * as VV${i} from 'vue';` },
+  iType: { tpl: (i) => `import type { Ref } from 'vue';` },
+  iDefault: { tpl: (i) => `import Vue${i} from 'vue';` },
+  iOther: { tpl: (i) => `import { defineComponent as odc${i} } from 'other-lib';\nconst OC${i} = odc${i}((props: { o: string }) => () => null);` },
+  iOtherLater: { tpl: (i) => `import { ref as orf${i} } from 'other-lib';` },
+  tAlias: { tpl: (i) => `type TA${i} = { zz: number };\ninterface TI${i} { zz: string }` },
+  fnScope: { tpl: (i) => `function sc${i}() { interface PI0 { other: symbol } interface PI1 { other: symbol } interface PI2 { other: symbol } type Q = PI0 | PI1 | PI2; return 0; }` },
+  stmt: { tpl: (i) => `const q${i} = 1;` },
+  jsxStmt: { tpl: (i) => `const j${i} = () => <p>{q}</p>;` },
+};
+const RT_KEYS = Object.keys(RT);
+const rtSrc = (items, idx) => RT_PRE + 'const q = 1;\n' + items.map((k, j) => RT[k].tpl(idx === undefined ? j : idx)).join('\n') + '\n';
+function rtRequests(c) {
+  const reqs = [{ src: rtSrc(c.rt), ts: true, want: ['eval'], opts: RT_OPTS }];
+  c.rt.forEach((k, i) => { if (RT[k].comp) reqs.push({ src: rtSrc([k], i), ts: true, want: ['eval'], opts: RT_OPTS }); });
+  return reqs;
+}
+function rtObserve(evalJs, i, dflt) {
+  const env = R.makeEnv();
+  env.modules = { 'other-lib': { defineComponent: (...a) => a, ref: () => 0 } };
+  const res = R.run(evalJs, env);
+  if (res.load) return { load: res.load };
+  const names = new Names();
+  const calls = res.calls.filter((x) => x.who === 'vue');
+  const pick = dflt ? null : res.out['k' + i];
+  const args = pick && pick.__defined ? pick.__defined : null;
+  return { options: canonValue(args ? args[1] : undefined, { names, flags: false }, []), nargs: args ? args.length : -1, vueCalls: calls.length };
+}
+function rtJudge(c, resps) {
+  for (const r of resps) if (r.parse_error) return { engineError: 'generated module does not parse: ' + r.parse_error };
+  const bad = (x) => x.panic || x.died || x.hang || !x.eval_js;
+  if (resps.some(bad)) return { viol: [{ clause: 'same-as-alone', diff: 'no-output', msg: 'the transform produced no output for a well-formed module of the space' }], obs: 'none', clauses: ['same-as-alone'] };
+  const viol = [], obsAll = [];
+  let n = 1;
+  c.rt.forEach((k, i) => {
+    if (!RT[k].comp) return;
+    const alone = resps[n++];
+    // a default export is observed through the recorded call (its position among the module's vue calls)
+    let e, o;
+    if (RT[k].dflt) {
+      const envA = R.makeEnv(), envC = R.makeEnv();
+      envA.modules = envC.modules = { 'other-lib': { defineComponent: (...a) => a, ref: () => 0 } };
+      const ra = R.run(alone.eval_js, envA), rc = R.run(resps[0].eval_js, envC);
+      const pos = c.rt.slice(0, i).filter((x) => RT[x].comp).length;
+      const cv = (call) => (call ? canonValue(call.args[1], { names: new Names(), flags: false }, []) : 'no-call');
+      e = ra.load ? { load: ra.load } : { options: cv(ra.calls.filter((x) => x.who === 'vue')[0]) };
+      o = rc.load ? { load: rc.load } : { options: cv(rc.calls.filter((x) => x.who === 'vue')[pos]) };
+    } else { e = rtObserve(alone.eval_js, i); o = rtObserve(resps[0].eval_js, i); delete e.vueCalls; delete o.vueCalls; }
+    obsAll.push(o);
+    const d = diff(e, o);
+    if (d) viol.push({ clause: 'same-as-alone', diff: 'options' + diffClass(d), msg: `component item ${i} (${k}) receives different options inside the module than alone, at ${d.path}`, expected: e, observed: o });
+  });
+  const uniq = new Map();
+  for (const v of viol) if (!uniq.has(v.clause + v.diff)) uniq.set(v.clause + v.diff, v);
+  return { viol: [...uniq.values()], obs: stable(obsAll), extraEvals: 0, clauses: ['same-as-alone'] };
+}
+function* rtCases(tier) {
+  const comps = RT_KEYS.filter((k) => RT[k].comp), max = tier === 'thorough' ? 4 : 3;
+  function* rec(prefix) {
+    if (prefix.length && prefix.some((k) => RT[k].comp)) yield { rt: prefix.slice() };
+    if (prefix.length >= max) return;
+    for (const k of RT_KEYS) { if ((RT[k].dflt || RT[k].once) && prefix.includes(k)) continue; prefix.push(k); yield* rec(prefix); prefix.pop(); }
+  }
+  yield* rec([]);
+}
+
 function requests(c) {
+  if (c.rt) return rtRequests(c);
   const opts = c.o3 ? OPTS3 : c.o2 ? OPTS2 : OPTS;
   const reqs = [{ src: H.renderHistory(c.items), want: ['eval'], opts }];
   c.items.forEach((it, i) => reqs.push({ src: H.renderAlone(it, i), want: ['eval'], opts })); // alone, under the index it has in the history
@@ -18,6 +102,7 @@ function requests(c) {
 }
 
 function judge(c, resps) {
+  if (c.rt) return rtJudge(c, resps);
   const r = resps[0];
   if (r.parse_error) return { engineError: 'generated history does not parse: ' + r.parse_error };
   for (const a of resps.slice(1)) if (a.parse_error) return { engineError: 'generated item does not parse: ' + a.parse_error };
@@ -60,9 +145,13 @@ module.exports = {
     name: 'O3:pragma-configured',
     bounds: { note: 'every item next to every focus item, both orders, with a configured pragma (vnode calls go to a global stub, so a module may need nothing else from the runtime)' },
     *gen() { for (const a of G.FOCUS) for (const b of G.CORE.concat(G.STATE_D)) { if (G.onceOk([a, b])) yield { items: [a, b], o3: true }; if (G.onceOk([b, a])) yield { items: [b, a], o3: true }; } },
+  }, {
+    name: 'RT:resolveType-components',
+    bounds: { items: RT_KEYS, max_length: tier === 'thorough' ? 4 : 3, options: 'resolveType on', note: 'every sequence of component definitions (typed setup functions, observed: the options Vue\'s defineComponent receives) and unrelated statements (further imports from vue and from other packages, type declarations, scoped interfaces of the same names, plain and JSX statements) that contains at least one component; each component must receive the options it receives when it is the only item of the module' },
+    *gen() { yield* rtCases(tier); },
   }]).concat(tier === 'thorough' ? [G.canonicalSpace(prepared, (items) => ({ items }))] : []),
   requests, judge,
-  *shrink(c) { for (const items of G.shrinkItems(c.items)) if (items.length) yield { items, o2: c.o2, o3: c.o3 }; if (c.o2 || c.o3) yield { items: c.items }; },
-  caseKey: (c) => G.key(c.items) + (c.o2 ? ' {optimize eos=off mergeProps=off}' : '') + (c.o3 ? ' {pragma}' : ''),
-  depth: (c) => c.items.length,
+  *shrink(c) { if (c.rt) { for (let i = 0; i < c.rt.length; i++) { const r = c.rt.slice(0, i).concat(c.rt.slice(i + 1)); if (r.some((k) => RT[k].comp)) yield { rt: r }; } return; } for (const items of G.shrinkItems(c.items)) if (items.length) yield { items, o2: c.o2, o3: c.o3 }; if (c.o2 || c.o3) yield { items: c.items }; },
+  caseKey: (c) => c.rt ? 'RT:' + c.rt.join(' ; ') : G.key(c.items) + (c.o2 ? ' {optimize eos=off mergeProps=off}' : '') + (c.o3 ? ' {pragma}' : ''),
+  depth: (c) => (c.rt || c.items).length,
 };
